@@ -384,7 +384,8 @@ def explore(rng, transport, profile, flavor, runner_cls, max_cmds=70):
                 info['faults'].append('eof')
                 do(['w', 'eof'])
             else:
-                d = srv.next_read()
+                # over TLS one transport read hands over a whole record (up to 16 KiB + what the first recv took), not just 4096 octets
+                d = srv.next_read(20000 if transport == 'tls' else 4096)
                 texts = srv.sent_texts[info.setdefault('_classified', 0):]
                 info['_classified'] = len(srv.sent_texts)
                 do(['w', d.hex(), list(texts) + [t.strip() for t in texts if t.strip() != t]])
